@@ -35,7 +35,7 @@ REAL, STUBBED = C.REAL, C.STUBBED
 
 
 def budget(tier):
-    return dict(nights=56, wall_s=170, hash_nights=12) if tier == "quick" else dict(nights=900, wall_s=1500, hash_nights=150)
+    return dict(nights=56, wall_s=240, hash_nights=12) if tier == "quick" else dict(nights=900, wall_s=1500, hash_nights=150)
 
 
 WORLD = dict(offices=["G", "S", "H"], unit_types=["precinct", "precinct", "county"], n_states=(1, 3), n_counties=(2, 6),
